@@ -604,4 +604,185 @@ theorem run_thr_length {cap : Nat} {s0 s : State} {evs : List Event} (h : run ca
 theorem internal_onlyPusher (p : Nat) {e : Event} (h : e.isInternal = true) : OnlyPusher p e := by
   cases e <;> first | exact trivial | simp [Event.isInternal, Event.isStart, Event.isSpur] at h
 
+/-! ### how one event changes the thread statuses -/
+
+/-- the status of the acting thread after event `e` (given its status before) -/
+def Event.post : Event → TStatus → TStatus
+  | .pushEnter _ it, _ => .pushing it
+  | .pushWait _, .pushing it => .waitNF it
+  | .pushWake _, .notifNF it => .pushing it
+  | .pushSpur _, .waitNF it => .pushing it
+  | .pullEnter _, _ => .pulling
+  | .pullWait _, _ => .waitNE
+  | .pullWake _, _ => .pulling
+  | .pullSpur _, _ => .pulling
+  | _, _ => .idle
+
+theorem thr_setT {s : State} {t : Nat} {a : TStatus} (b : TStatus) (_ht : s.thr[t]? = some a)
+    {u : Nat} {st' : TStatus} (hu : (s.setT t b).thr[u]? = some st') :
+    (u = t ∧ st' = b) ∨ (u ≠ t ∧ s.thr[u]? = some st') := by
+  rcases get_set (l := s.thr) hu with ⟨h1, h2⟩ | ⟨h1, h2⟩
+  · exact .inl ⟨h1, h2⟩
+  · exact .inr ⟨h1, h2⟩
+
+theorem thr_notifNE {s s' : State} {w} (hn : NotifNE s w s') {u : Nat} {st' : TStatus}
+    (hu : s'.thr[u]? = some st') :
+    ∃ st, s.thr[u]? = some st ∧ (st' = st ∨ (st = .waitNE ∧ st' = .notifNE)) := by
+  cases hn with
+  | @some v hv =>
+    rcases thr_setT _ hv hu with ⟨rfl, rfl⟩ | ⟨_, h⟩
+    · exact ⟨_, hv, .inr ⟨rfl, rfl⟩⟩
+    · exact ⟨_, h, .inl rfl⟩
+  | none _ => exact ⟨_, hu, .inl rfl⟩
+
+theorem thr_notifNF {s s' : State} {w} (hn : NotifNF s w s') {u : Nat} {st' : TStatus}
+    (hu : s'.thr[u]? = some st') :
+    ∃ st, s.thr[u]? = some st ∧ (st' = st ∨ (∃ it, st = .waitNF it ∧ st' = .notifNF it)) := by
+  cases hn with
+  | @some v x hv =>
+    rcases thr_setT _ hv hu with ⟨rfl, rfl⟩ | ⟨_, h⟩
+    · exact ⟨_, hv, .inr ⟨x, rfl, rfl⟩⟩
+    · exact ⟨_, h, .inl rfl⟩
+  | none _ => exact ⟨_, hu, .inl rfl⟩
+
+/-- One event changes the status of the acting thread to `e.post`, and every other thread keeps
+its status or is moved out of a wait set by a notify (`wakeAll`: `waitNE ↦ notifNE`,
+`waitNF it ↦ notifNF it`). -/
+theorem step_thr {cap : Nat} {s s' : State} {e : Event} (hs : step cap s e = some s')
+    {u : Nat} {st' : TStatus} (hu : s'.thr[u]? = some st') :
+    ∃ st, s.thr[u]? = some st ∧
+      ((u = e.tid ∧ st' = e.post st) ∨ (u ≠ e.tid ∧ (st' = st ∨ st' = wakeAll st))) := by
+  -- a thread that only changes its own status
+  have own : ∀ {t : Nat} {a : TStatus} (b : TStatus) {x : TStatus}, s.thr[t]? = some a → e.tid = t →
+      e.post a = b → (s.thr.set t b)[u]? = some x →
+      ∃ st, s.thr[u]? = some st ∧
+        ((u = e.tid ∧ x = e.post st) ∨ (u ≠ e.tid ∧ (x = st ∨ x = wakeAll st))) := by
+    intro t a b x ht het hpost hu
+    rcases thr_setT (s := s) b ht hu with ⟨rfl, rfl⟩ | ⟨hne, h⟩
+    · exact ⟨a, ht, .inl ⟨het.symm, hpost.symm⟩⟩
+    · exact ⟨x, h, .inr ⟨het ▸ hne, .inl rfl⟩⟩
+  -- a thread outside the queue that stays outside
+  have stay : ∀ {t : Nat} {x : TStatus}, s.thr[t]? = some .idle → e.tid = t → e.post .idle = .idle →
+      s.thr[u]? = some x →
+      ∃ st, s.thr[u]? = some st ∧
+        ((u = e.tid ∧ x = e.post st) ∨ (u ≠ e.tid ∧ (x = st ∨ x = wakeAll st))) := by
+    intro t x ht het hpost hu
+    by_cases hut : u = t
+    · subst hut
+      rw [ht] at hu; cases hu
+      exact ⟨_, ht, .inl ⟨het.symm, hpost.symm⟩⟩
+    · exact ⟨x, hu, .inr ⟨het ▸ hut, .inl rfl⟩⟩
+  cases step_sound hs with
+  | pushEnter ht => exact own _ ht rfl rfl hu
+  | pushWait ht _ _ _ => exact own _ ht rfl rfl hu
+  | pushWake ht => exact own _ ht rfl rfl hu
+  | pushSpur ht => exact own _ ht rfl rfl hu
+  | pushRefuse ht hcl => exact own .idle ht rfl rfl hu
+  | @pushAdmit _ t it w ht hfit hcl hn =>
+    obtain ⟨st1, h1, hrel⟩ := thr_notifNE hn hu
+    obtain ⟨st, h2, hcase⟩ := own (x := st1) .idle ht rfl rfl h1
+    refine ⟨st, h2, ?_⟩
+    rcases hcase with ⟨hut, hst1⟩ | ⟨hut, hst1⟩
+    · left; refine ⟨hut, ?_⟩
+      rcases hrel with h | ⟨h, _⟩
+      · exact h.trans hst1
+      · rw [hst1] at h
+        have hu0 : u = t := hut
+        subst hu0
+        rw [ht] at h2; cases h2; cases h
+    · right; refine ⟨hut, ?_⟩
+      rcases hst1 with hst1 | hst1
+      · subst hst1
+        rcases hrel with h | ⟨h, h'⟩
+        · exact .inl h
+        · subst h; exact .inr h'
+      · rcases hrel with h | ⟨h, h'⟩
+        · exact .inr (h.trans hst1)
+        · exfalso; rw [hst1] at h; cases st <;> cases h
+  | tryPushRefuse ht hcl => exact stay ht rfl rfl hu
+  | tryPushWouldBlock ht hcl hfull hne => exact stay ht rfl rfl hu
+  | @tryPushAdmit _ t it w ht hcl hfit hn =>
+    obtain ⟨st1, h1, hrel⟩ := thr_notifNE hn hu
+    obtain ⟨st, h2, hcase⟩ := stay (x := st1) ht rfl rfl h1
+    refine ⟨st, h2, ?_⟩
+    rcases hcase with ⟨hut, hst1⟩ | ⟨hut, hst1⟩
+    · left; refine ⟨hut, ?_⟩
+      rcases hrel with h | ⟨h, _⟩
+      · exact h.trans hst1
+      · have hu0 : u = t := hut
+        subst hu0
+        rw [ht] at h2; cases h2
+        rw [hst1] at h; cases h
+    · right; refine ⟨hut, ?_⟩
+      rcases hst1 with hst1 | hst1
+      · subst hst1
+        rcases hrel with h | ⟨h, h'⟩
+        · exact .inl h
+        · subst h; exact .inr h'
+      · rcases hrel with h | ⟨h, h'⟩
+        · exact .inr (h.trans hst1)
+        · exfalso; rw [hst1] at h; cases st <;> cases h
+  | pullEnter ht => exact own _ ht rfl rfl hu
+  | pullWait ht _ _ => exact own _ ht rfl rfl hu
+  | pullWake ht => exact own _ ht rfl rfl hu
+  | pullSpur ht => exact own _ ht rfl rfl hu
+  | pullEos ht he hcl => exact own .idle ht rfl rfl hu
+  | @pullTake _ t it w ht hm hmax hn =>
+    obtain ⟨st1, h1, hrel⟩ := thr_notifNF hn hu
+    obtain ⟨st, h2, hcase⟩ := own (x := st1) .idle ht rfl rfl h1
+    refine ⟨st, h2, ?_⟩
+    rcases hcase with ⟨hut, hst1⟩ | ⟨hut, hst1⟩
+    · left; refine ⟨hut, ?_⟩
+      rcases hrel with h | ⟨x, h, _⟩
+      · exact h.trans hst1
+      · rw [hst1] at h
+        have hu0 : u = t := hut
+        subst hu0
+        rw [ht] at h2; cases h2; cases h
+    · right; refine ⟨hut, ?_⟩
+      rcases hst1 with hst1 | hst1
+      · subst hst1
+        rcases hrel with h | ⟨x, h, h'⟩
+        · exact .inl h
+        · subst h; exact .inr h'
+      · rcases hrel with h | ⟨x, h, h'⟩
+        · exact .inr (h.trans hst1)
+        · exfalso; rw [hst1] at h; cases st <;> cases h
+  | tryPullEmpty ht he => exact stay ht rfl rfl hu
+  | @tryPullTake _ t it w ht hm hmax hn =>
+    obtain ⟨st1, h1, hrel⟩ := thr_notifNF hn hu
+    obtain ⟨st, h2, hcase⟩ := stay (x := st1) ht rfl rfl h1
+    refine ⟨st, h2, ?_⟩
+    rcases hcase with ⟨hut, hst1⟩ | ⟨hut, hst1⟩
+    · left; refine ⟨hut, ?_⟩
+      rcases hrel with h | ⟨x, h, _⟩
+      · exact h.trans hst1
+      · have hu0 : u = t := hut
+        subst hu0
+        rw [ht] at h2; cases h2
+        rw [hst1] at h; cases h
+    · right; refine ⟨hut, ?_⟩
+      rcases hst1 with hst1 | hst1
+      · subst hst1
+        rcases hrel with h | ⟨x, h, h'⟩
+        · exact .inl h
+        · subst h; exact .inr h'
+      · rcases hrel with h | ⟨x, h, h'⟩
+        · exact .inr (h.trans hst1)
+        · exfalso; rw [hst1] at h; cases st <;> cases h
+  | @close t ht =>
+    simp only [List.getElem?_map, Option.map_eq_some_iff] at hu
+    obtain ⟨st, hst, rfl⟩ := hu
+    refine ⟨st, hst, ?_⟩
+    by_cases hut : u = t
+    · subst hut
+      rw [ht] at hst; cases hst
+      exact .inl ⟨rfl, rfl⟩
+    · exact .inr ⟨hut, .inr rfl⟩
+
+theorem wakeAll_inPull (st : TStatus) : (wakeAll st).inPull = st.inPull := by cases st <;> rfl
+theorem wakeAll_item (st : TStatus) : (wakeAll st).item? = st.item? := by cases st <;> rfl
+theorem wakeAll_idle {st : TStatus} : wakeAll st = .idle ↔ st = .idle := by
+  cases st <;> simp [wakeAll]
+
 end Ragc.Queue
